@@ -20,6 +20,9 @@ CHECKS = {
     "C04": ("model_checking", MC + "; in every state a menu of must-be-rejected messages is enumerated per member (fault/mutation enumeration on forks)",
             "In every state of a history traversal and for every member, every region of every deliverable genuine message is mutated once per kind (bit flips, truncations), plus semantically unacceptable authentic messages and failing builds; each on a fork: the complete canonical state (hook H1) must be identical after the error, the genuine message must then lead to the twin's state, and the next send must be accepted.",
             "Trusted: explorer, hook verif_state normal forms (DESIGN 1.4a), reference framing parser. Depth one less than C01. Known findings F-C04-1/2 (ratchet key consumed by rejected private messages) are listed in known-findings.json.", "DESIGN.md 2/C04"),
+    "C05": ("model_checking", MC + "; AEAD (key, nonce) pairs and random draws observed through a recording crypto-provider wrapper",
+            "Every interleaving (to the depth bound) of application sends by two senders, encrypted proposals, deliveries in any order and write+reload of either side: no (key, nonce) is ever used twice, application and handshake keys are disjoint, the reuse guard is freshly drawn and applied, every first delivery succeeds, every re-delivery (also after reload) is refused; plus the 1024-generation window boundary in both directions.",
+            "Trusted: explorer, recording provider wrapper; the receiver-side ratchet value comes from the library's own secret_tree_access API. 3 members, depth 7 (quick) / 8 (thorough).", "DESIGN.md 2/C05"),
     "C06": ("fault_enumeration", "exhaustive enumeration of (history, write positions, crash/reload point, retention, store) cases, each executed from scratch on the real implementation over a tee of the shipped in-memory store, the shipped SQLite store and a reference store model",
             "Every history of the target member up to the depth bound x every set of write positions x every reload point x retention x shipped store: load-after-write equals the saved member (complete state), a crash after any unwritten tail loads exactly the last written state, a reloaded copy stays in lockstep with the never-reloaded member, and all reads agree between in-memory store, SQLite store and model.",
             "Trusted: explorer, hook verif_state, reference store model. Crash points lie between storage trait calls; SQLite on an in-memory connection.", "DESIGN.md 2/C06"),
@@ -38,6 +41,9 @@ CHECKS = {
     "C13": ("model_checking", GRID + "; plus conformance of every epoch of scripted real groups to the reference (shadow joiner)",
             "Every derivation (key schedule, secret tree, per-generation keys, PSK chain, exporter, ExpandWithLabel) is compared with an independent RFC 9420 implementation over an enumerated input grid for every suite of every provider, and every epoch of scripted real groups is re-derived by the reference from the Welcome's joiner secret / the previous init secret and compared with what the members hold, including transcript hashes and tags recomputed from wire bytes.",
             "Trusted: reference::keysched on sha2/hmac; hook derive::* (thin wrappers over the crate-private functions) and verif_epoch_keys (read-only).", "DESIGN.md 2/C13"),
+    "C19": ("model_checking", "exhaustive enumeration of (retention, commit chain, send epoch, write pattern, sender-leaf fate, store) cases executed from scratch on the real implementation over the tee store, judged by a reference retention model",
+            "Every (retention, chain length, send epoch, subset of write positions, fate of the sender's leaf, answering store) case: a late message decrypts exactly when its epoch lies in the model's retention window and the leaf still carries the sender's signature key; the stored window is read back epoch by epoch from both shipped stores after every write.",
+            "Trusted: explorer, reference retention model, tee store. R in 1..3, chains up to R+2 (quick) / R+3 (thorough) commits.", "DESIGN.md 2/C19"),
     "C20": ("model_checking", "exhaustive enumeration of all tree sizes 2^0..2^12 and all node indices / leaf pairs against the recursive RFC definitions (sizes above 2^12: spines exhaustive, interior sampled and reported as sampled)",
             "All node indices of all full trees up to 2^12 leaves (and 8 beyond), all leaf pairs up to 2^10 (quick) / 2^12 (thorough) leaves, against the recursive Appendix C definitions.",
             "Trusted: reference::treemath (recursive definitions). Sizes 2^13..2^24 are partly sampled (VERIF_SEED) and not counted as exhaustive.", "DESIGN.md 2/C20"),
